@@ -358,16 +358,51 @@ func extractDeferSignature(d *ssa.Defer) string {
 
 func extractClosureSignature(v *ssa.MakeClosure) string {
 	if fn, ok := v.Fn.(*ssa.Function); ok && fn != nil {
-		return fmt.Sprintf("closure:%s", fn.Signature.String())
+		return fmt.Sprintf("closure:%s", signatureShape(fn.Signature))
 	}
 	return ""
+}
+
+// signatureShape renders a signature from its parameter and result TYPES only.
+// types.Signature.String() also prints parameter names, which made the call profile of a
+// function (and with it its topology hash) depend on how a closure's parameters are called.
+func signatureShape(sig *types.Signature) string {
+	var sb strings.Builder
+	sb.WriteString("func(")
+	for i := 0; i < sig.Params().Len(); i++ {
+		if i > 0 {
+			sb.WriteString(", ")
+		}
+		if sig.Variadic() && i == sig.Params().Len()-1 {
+			if sl, ok := sig.Params().At(i).Type().(*types.Slice); ok {
+				sb.WriteString("..." + normalizeTypeName(sl.Elem()))
+				continue
+			}
+		}
+		sb.WriteString(normalizeTypeName(sig.Params().At(i).Type()))
+	}
+	sb.WriteString(")")
+	switch n := sig.Results().Len(); {
+	case n == 1:
+		sb.WriteString(" " + normalizeTypeName(sig.Results().At(0).Type()))
+	case n > 1:
+		sb.WriteString(" (")
+		for i := 0; i < n; i++ {
+			if i > 0 {
+				sb.WriteString(", ")
+			}
+			sb.WriteString(normalizeTypeName(sig.Results().At(i).Type()))
+		}
+		sb.WriteString(")")
+	}
+	return sb.String()
 }
 
 func extractFunctionSig(fn *ssa.Function) string {
 	// Fix: Detect anonymous/nested functions to provide stable signatures.
 	// This handles optimizations where simple closures become plain Functions.
 	if fn.Parent() != nil {
-		return fmt.Sprintf("closure:%s", fn.Signature.String())
+		return fmt.Sprintf("closure:%s", signatureShape(fn.Signature))
 	}
 
 	if fn.Pkg != nil {
